@@ -29,7 +29,7 @@ RULE = ('one foreign .trashinfo per case (absolute / relative Path, percent-esca
         'distinct = (content features, trash-dir kind, home mode)')
 ASSUMPTIONS = ['for a relative Path in the home trash the spec defines no base: only agreement between the commands is required there',
                'trash-rm has no --trash-dir option and is skipped for custom trash directories']
-PROBES = ['twin-entries', 'path-value-over-4k', 'trash-dir-through-cross-volume-symlink', 'several-trash-dir-options', 'four-way-agree', 'relative-path', 'absolute-path', 'home-own-volume', 'custom-trash-dir', 'duplicate-keys', 'crlf', 'escapes',
+PROBES = ['trash-dir-on-a-volume-missing-from-the-partition-listing', 'twin-entries', 'path-value-over-4k', 'trash-dir-through-cross-volume-symlink', 'several-trash-dir-options', 'four-way-agree', 'relative-path', 'absolute-path', 'home-own-volume', 'custom-trash-dir', 'duplicate-keys', 'crlf', 'escapes',
           'non-utf8-escape', 'empty-threshold-checked', 'rm-checked', 'restore-checked', 'undated']
 TECHNIQUE = 'deterministic simulation, four-way differential of the readers on rebuilt worlds plus comparison with an independent spec decoder; TRASH_DATE sweeps the purge threshold'
 LEVEL_TEXT = 'seeded exploration of .trashinfo contents x trash-dir kinds; agreement of list / restore / rm / empty on path and date, and with the spec'
@@ -134,8 +134,13 @@ def gen(rng):
         G.add_trashed(steps, tdir, 'fe_1', None, None, 'file', info_content=content, tag='f-twin')
     if rng.random() < 0.5:
         G.add_trashed(steps, tdir, 'neighbour', TG.pct(base + '/neighbour' if top is None else 'docs/neighbour'), '2022-02-02T02:02:02', 'file', tag='n')
+    unlisted = []
+    if custom and L['vols'] and rng.random() < 0.4:
+        # the volume of the --trash-dir has a file-system type that the partition listing leaves out (ZFS dataset, overlay,
+        # sshfs ...) although it is a mount point: every command finds the base for relative Paths the same way
+        unlisted = [v for v in L['vols'] if custom.startswith(v + '/') or (custom.endswith('/ctlink') and True)]
     return {
-        'world': {'mounts': L['mounts'], 'steps': steps},
+        'world': {'mounts': L['mounts'], 'steps': steps, 'unlisted': unlisted},
         'procs': [{'argv': ['trash-list'], 'env': env, 'cwd': '/', 'uid': uid}],
         'dirsalt': rng.randrange(1 << 30),
         'note': {'tdir': tdir, 'custom': bool(custom), 'feats': feats, 'home_mode': hm, 'other_td': other_td, 'twin': twin},
@@ -174,6 +179,8 @@ def check(sim, case, st):
     st.probes['relative-path' if rel else 'absolute-path'] += 1
     if hm != 'root':
         st.probes['home-own-volume'] += 1
+    if case['world'].get('unlisted'):
+        st.probes['trash-dir-on-a-volume-missing-from-the-partition-listing'] += 1
     if custom:
         st.probes['custom-trash-dir'] += 1
         if tdir.endswith('/ctlink'):
